@@ -198,7 +198,12 @@ func runOne(spec RunSpec, verbose bool) *RunResult {
 					cpu += d
 					mu.Unlock()
 					if spec.Cross {
-						r.Cross = crossCheck(smt, rs, spec.Timeout)
+						// a cross-check that does not finish in a minute is recorded, it is not a disagreement
+						ct := spec.Timeout
+						if ct > 20 {
+							ct = 20
+						}
+						r.Cross = crossCheck(smt, rs, ct)
 					}
 				}
 				out[i] = r
